@@ -289,40 +289,45 @@ def c10_10(ck, prog):
     EP = 'dbus/dbus-pollable-set-epoll.c'
     r = ck.rule('C10.10', 'disabling a watch leaves an edge-triggered, otherwise empty event mask in the epoll set: the '
                 'value stored in event.events before EPOLL_CTL_MOD is a constant that has EPOLLET and neither EPOLLIN '
-                'nor EPOLLOUT (hang-up and error are always reported by the kernel; level-triggered they are reported '
-                'on every wait)', 'TAB',
+                'nor EPOLLOUT, in socket_set_epoll_disable and in the disabled branch of socket_set_epoll_add (hang-up '
+                'and error are always reported by the kernel; level-triggered they are reported on every wait)', 'TAB',
                 breaks='a client that closes its end while its watch is disabled (its messages are queued behind a '
                 'limit) makes every epoll_wait return at once: the bus spins at full CPU and serves the others late',
-                floor=1)
-    fn = prog.fn('socket_set_epoll_disable', EP)
-    ctl = [c for b, i, c in fn.calls('epoll_ctl')]
-    if len(ctl) != 1:
-        raise AnalysisBroken('socket_set_epoll_disable: expected one epoll_ctl call')
-    stores = []
-    for b, i, ev in fn.events():
-        for lhs, how, rhs in written_lvalues(ev):
-            if lhs.get('k') == 'member' and lhs.get('field') == 'events' and how == '=':
-                stores.append((rhs, ev['line']))
-    if len(stores) != 1:
-        raise AnalysisBroken('socket_set_epoll_disable: expected one store to event.events, found %d' % len(stores))
-    v = lib.eval_expr(stores[0][0], lambda e: None)
-    if v is None:
-        x = stores[0][0]
-        while x.get('k') in ('paren', 'cast'):
-            x = x['e']
-        v = lib.const_call_value(prog, fn, x)
-    if v is None:
-        r.note('socket_set_epoll_disable: the mask %s is not a constant this rule can evaluate; no verdict' % estr(stores[0][0]))
-        raise AnalysisBroken('socket_set_epoll_disable: mask %s not evaluable' % estr(stores[0][0]))
+                floor=2)
     et, rd, wr = 1 << 31, 0x001, 0x004
-    key = 'socket_set_epoll_disable:mask'
-    if False:
-        pass
-    elif not (v & et) or v & (rd | wr):
-        r.violation(key, fn.name, EP, stores[0][1], 'the mask of a disabled watch is %s = %#x: %s' % (
-            estr(stores[0][0]), v, 'not edge-triggered' if not v & et else 'still asks for readiness'))
-    else:
-        r.ok(key, {'mask': '%#x' % v})
+    n = 0
+    for fname, must_be_constant in (('socket_set_epoll_disable', True), ('socket_set_epoll_add', False)):
+        fn = prog.fn(fname, EP)
+        if not list(fn.calls('epoll_ctl')):
+            raise AnalysisBroken('%s: no epoll_ctl call' % fname)
+        stores = []
+        for b, i, ev in fn.events():
+            for lhs, how, rhs in written_lvalues(ev):
+                if lhs.get('k') == 'member' and lhs.get('field') == 'events' and how == '=':
+                    stores.append((rhs, ev['line']))
+        if not stores:
+            raise AnalysisBroken('%s: no store to event.events' % fname)
+        for rhs, line in stores:
+            x = rhs
+            while x.get('k') in ('paren', 'cast'):
+                x = x['e']
+            v = lib.eval_expr(x, lambda e: None)
+            if v is None:
+                v = lib.const_call_value(prog, fn, x)
+            if v is None:
+                # a mask computed from the watch's flags: the enabled case
+                if must_be_constant:
+                    raise AnalysisBroken('%s: mask %s not evaluable' % (fname, estr(rhs)))
+                continue
+            n += 1
+            key = '%s:disabled-mask@%s' % (fname, estr(rhs)[:40])
+            if not (v & et) or v & (rd | wr):
+                r.violation(key, fn.name, EP, line, 'the mask of a disabled watch is %s = %#x: %s' % (
+                    estr(rhs), v, 'not edge-triggered' if not v & et else 'still asks for readiness'))
+            else:
+                r.ok(key, {'mask': '%#x' % v})
+    if n < 2:
+        raise AnalysisBroken('disabled-watch masks: %d constant stores found, expected one in add and one in disable' % n)
 
 
 def run(ck):
